@@ -403,7 +403,7 @@ def attr_oracle(tag, items):
                 if it not in allowed or allowed[it] is None:
                     return 'reject'                       # valueless use of an unknown attribute (names are case-sensitive here)
                 if it in params:
-                    pass                                  # valueless repeat silently overwrites (documented quirk: not a k=v duplicate)
+                    return 'reject'                       # duplicate attribute (valueless repeat, or valueless after name=value)
                 params[it] = allowed[it]
     attr = 'type' if tag == 'raise' else 'name'
     if unnamed is not None:
@@ -434,13 +434,14 @@ def attr_oracle(tag, items):
     return 'ok'
 
 
-def make_attrlist(tag, nitems, syn):
+def make_attrlist(tag, nitems, syn, first=None):
     allowed, items = ATTRS[tag]
     ni = len(items)
     cls = String if syn == 'epfs' else HTML
+    flo, fhi = first if first is not None else (0, ni)
 
     def ob(k1: int, k2: int, k3: int, nl: int) -> bool:
-        idx = [pick(k, ni) for k in (k1, k2, k3)[:nitems]]
+        idx = [flo + pick(k1, fhi - flo)] + [pick(k, ni) for k in (k2, k3)[:nitems - 1]]
         its = [items[i] for i in idx]
         n = pick(nl, 3)
         with NoTracing():
@@ -597,12 +598,17 @@ if not tier(True, False):
     seq_obs('dtml', 5, TOK[:NCORE - 2], 10, 1, 'core10')
 for _tag in ATTRS:
     for _syn in ('dtml', 'ssi', 'epfs'):
-        nit = tier(2, 3)
-        OBLIGATIONS.append(Ob('attrs_%s_%s' % (_tag, _syn), make_attrlist(_tag, nit, _syn),
-                              ['0 <= k%d < %d' % (i, len(ATTRS[_tag][1])) for i in (1, 2, 3)] + ['0 <= nl < 3'],
-                              timeout=tier(200, 1200), path_timeout=30,
-                              data='newlines before the tag (symbolic 0..2)', selectors='every ordered list of %d attribute items out of %d for tag %s, %s syntax' % (nit, len(ATTRS[_tag][1]), _tag, _syn),
-                              outside='attribute lists longer than %d items' % nit, stubs='cook() runs untraced on the per-path concrete source'))
+        nit = 3 if _syn == 'dtml' else tier(2, 3)
+        _ni = len(ATTRS[_tag][1])
+        # three-item lists over the big vocabularies are partitioned by the first item (one worker each)
+        _parts = [(lo, min(_ni, lo + 4)) for lo in range(0, _ni, 4)] if nit == 3 and _ni > 10 else [(0, _ni)]
+        for _lo, _hi in _parts:
+            OBLIGATIONS.append(Ob('attrs_%s_%s%s' % (_tag, _syn, '' if len(_parts) == 1 else '_p%d' % _lo), make_attrlist(_tag, nit, _syn, (_lo, _hi)),
+                                  ['0 <= k1 < %d' % (_hi - _lo)] + ['0 <= k%d < %d' % (i, _ni) for i in (2, 3)] + ['0 <= nl < 3'],
+                                  timeout=tier(200, 1200), path_timeout=30,
+                                  data='newlines before the tag (symbolic 0..2)', selectors='every ordered list of %d attribute items out of %d for tag %s, %s syntax%s' % (
+                                      nit, _ni, _tag, _syn, '' if len(_parts) == 1 else '; first item in [%d,%d)' % (_lo, _hi)),
+                                  outside='attribute lists longer than %d items' % nit, stubs='cook() runs untraced on the per-path concrete source'))
 for _i in range(len(WELL)):
     OBLIGATIONS.append(Ob('trunc_%d' % _i, make_trunc(_i), ['0 <= cut <= %d' % len(WELL[_i])], timeout=tier(120, 300),
                           data='cut position (symbolic, every offset)', selectors='well-formed source #%d, both the head and the tail of the cut' % _i,
@@ -612,3 +618,82 @@ for _name in live_patterns():
                           engine='E4 rxamb (z3)', data='pump word w over ALL code points, 1 <= |w| <= %d; NFA state q' % KMAX,
                           selectors='live pattern %s' % _name, bounds='pump length <= %d' % KMAX,
                           outside='pumps longer than %d; polynomial (non-exponential) ambiguity; time spent outside re' % KMAX))
+
+
+# ---------------------------------------------------------------- wave 3: quoted VALUE slots of every free-text attribute
+VALUE_CTX = {
+    'in_start': ('<dtml-in x start="', '" size=2>y</dtml-in>', HTML),
+    'in_size': ('<dtml-in x size="', '">y</dtml-in>', HTML),
+    'in_end_orphan': ('<dtml-in x end="', '" orphan="1">y</dtml-in>', HTML),
+    'in_overlap': ('<dtml-in x size=3 overlap="', '">y</dtml-in>', HTML),
+    'in_prefix': ('<dtml-in x prefix="', '">y</dtml-in>', HTML),
+    'in_sort': ('<dtml-in x sort="', '">y</dtml-in>', HTML),
+    'in_sort_expr': ('<dtml-in x sort_expr="', '">y</dtml-in>', HTML),
+    'in_reverse_expr': ('<dtml-in x reverse_expr="', '">y</dtml-in>', HTML),
+    'in_start_epfs': ('%(in x start="', '" size=2)[y%(in)]', String),
+    'in_start_ssi': ('<!--#in x start="', '" size=2-->y<!--#/in-->', HTML),
+    'var_fmt': ('<dtml-var x fmt="', '">', HTML),
+    'var_size_etc': ('<dtml-var x size=3 etc="', '">', HTML),
+    'var_null': ('<dtml-var x null="', '" missing="m">', HTML),
+    'let_value': ('<dtml-let a="', '">y</dtml-let>', HTML),
+    'raise_type': ('<dtml-raise type="', '">y</dtml-raise>', HTML),
+    'except_names': ('<dtml-try>y<dtml-except ', '>z</dtml-try>', HTML),
+    'tree_branches': ('<dtml-tree x branches="', '">y</dtml-tree>', HTML),
+    'tree_sort': ('<dtml-tree x sort="', '" reverse=1>y</dtml-tree>', HTML),
+    'with_name': ('<dtml-with "', '" mapping>y</dtml-with>', HTML),
+    'if_expr': ('<dtml-if expr="', '">y</dtml-if>', HTML),
+}
+import TreeDisplay      # noqa: E402,F401  (registers the tree tag)
+VALPHA = [c for c in ALPHA if c != '"']
+
+
+def outcome_value(cls, src, expr_slot):
+    o = outcome(cls, src)
+    if o.startswith('bad:SyntaxError') and expr_slot:
+        return 'syntax'
+    return o
+
+
+def make_value(ctx, nsym, first=None):
+    pre, post, cls = VALUE_CTX[ctx]
+    na = len(VALPHA)
+    lo, hi = first if first is not None else (0, na)
+    # slots that hold a Python expression (a quoted value IS the explicit expression form)
+    expr_slot = ctx in ('in_sort_expr', 'in_reverse_expr', 'let_value', 'with_name', 'if_expr')
+
+    def ob(k1: int, k2: int, k3: int) -> bool:
+        mid = VALPHA[lo + pick(k1, hi - lo)]
+        if nsym >= 2:
+            mid += VALPHA[pick(k2, na)]
+        if nsym >= 3:
+            mid += VALPHA[pick(k3, na)]
+        with NoTracing():
+            o = outcome_value(cls, pre + mid + post, expr_slot)
+            if o.startswith('bad'):
+                LAST['info'] = 'cook(%r) -> %s' % (pre + mid + post, o)
+                return False
+            if ctx == 'in_prefix':
+                # grammar iff for the one slot with a documented lexical rule: "non-simple prefix" is rejected
+                simple = mid[0] in 'aAdefno' and all(ch in 'aAdefno_0' for ch in mid[1:])
+                if (o == 'ok') != simple:
+                    LAST['info'] = 'cook(%r) -> %s, but the prefix %r is %ssimple' % (pre + mid + post, o, mid, '' if simple else 'not ')
+                    return False
+            return True
+    ob.__name__ = 'ob_value_%s_%d_%d' % (ctx, nsym, lo)
+    return ob
+
+
+for _c in VALUE_CTX:
+    OBLIGATIONS.append(Ob('value_' + _c, make_value(_c, 2), ['0 <= k1 < %d' % len(VALPHA), '0 <= k2 < %d' % len(VALPHA), 'k3 == 0'],
+                          timeout=tier(240, 900), path_timeout=30,
+                          data='2 characters of a quoted attribute VALUE over the class-representative alphabet (%d atoms, without the double quote)' % len(VALPHA),
+                          selectors='context %r ... %r' % (VALUE_CTX[_c][0], VALUE_CTX[_c][1]),
+                          outside='values longer than 2 symbols', stubs='cook() runs untraced on the per-path concrete source'))
+if tier(False, True):
+    for _c in ('in_start', 'in_prefix', 'in_sort', 'var_fmt', 'in_start_epfs'):
+        for _lo in range(0, len(VALPHA), 5):
+            _hi = min(len(VALPHA), _lo + 5)
+            OBLIGATIONS.append(Ob('value3_%s_p%d' % (_c, _lo), make_value(_c, 3, (_lo, _hi)),
+                                  ['0 <= k1 < %d' % (_hi - _lo), '0 <= k2 < %d' % len(VALPHA), '0 <= k3 < %d' % len(VALPHA)], timeout=1500, path_timeout=30,
+                                  data='3 characters of a quoted attribute value', selectors='context %r ... %r; first symbol in atoms [%d,%d)' % (VALUE_CTX[_c][0], VALUE_CTX[_c][1], _lo, _hi),
+                                  outside='values longer than 3 symbols', stubs='cook() runs untraced on the per-path concrete source'))
